@@ -165,6 +165,12 @@ func run(c *mon.Ctx) {
 			nStreams = 0
 		}
 		p := ref.GenPMT(r, nStreams)
+		if len(p.Streams) >= 2 && r.Chance(8) {
+			// two entries of the stream loop may name the same elementary PID: the lists mirror the section entry by entry
+			a, b := r.Intn(len(p.Streams)), r.Intn(len(p.Streams))
+			p.Streams[b].PID = p.Streams[a].PID
+			c.Count("pmt.entries_sharing_a_pid")
+		}
 		k := mkCarrier(r, &p)
 		full := r.Slack(k.full())
 		snap := append([]byte{}, full...)
@@ -351,7 +357,7 @@ func run(c *mon.Ctx) {
 			}
 			psi.ReadPMT(bytes.NewReader(in[:188*r.Intn(1+len(in)/188)]), pid)
 		}
-		m2, err := psi.ReadPMT(bytes.NewReader(in), pid)
+		m2, err := psi.ReadPMT(ref.AnyReader(r, append([]byte{}, in...)), pid)
 		c.Eval(1)
 		var sizes []int
 		for i := range starts {
